@@ -26,7 +26,7 @@ func (h timerHeap) Less(i, j int) bool {
 	return h[i].seq < h[j].seq
 }
 func (h timerHeap) Swap(i, j int)       { h[i], h[j] = h[j], h[i]; h[i].idx = i; h[j].idx = j }
-func (h *timerHeap) Push(x interface{}) { e := x.(*timerEv); e.idx = len(*h); *h = append(*h, e) }
+func (h *timerHeap) Push(x interface{}) { e := x.(*timerEv); e.idx = len(*h); *h = push(*h, e) }
 func (h *timerHeap) Pop() interface{} {
 	old := *h
 	n := len(old)
@@ -70,7 +70,7 @@ func AddTimer(d time.Duration, desc string, fire func()) TimerHandle {
 	}
 	s.clock.seq++
 	if len(s.timerLog) < 2000 {
-		s.timerLog = append(s.timerLog, TimerReq{Task: CurrentID(), D: d, Desc: desc, At: s.clock.now})
+		s.timerLog = push(s.timerLog, TimerReq{Task: CurrentID(), D: d, Desc: desc, At: s.clock.now})
 	}
 	e := &timerEv{at: s.clock.now + d, seq: s.clock.seq, fire: fire, desc: desc}
 	heap.Push(&s.clock.q, e)
